@@ -17,8 +17,8 @@ from concurrent.futures import ThreadPoolExecutor
 from . import core
 from .core import cq_list, cq_pos
 
-THEOREMS = ["C07a_names", "C07b_prefixes", "C07c_extends_merge", "C07d_rename", "C07_refines_partial",
-            "C07_refuted_shadowing", "C07_example"]
+THEOREMS = ["C07a_names", "C07b_prefixes", "C07c_extends_merge", "C07d_rename", "C07_refines_flat",
+            "C07_refines_flat_example", "C07_refines_partial", "C07_refuted_shadowing", "C07_example"]
 
 ATTRS = ["value", "min", "max", "start", "fixed", "nominal", "unit", "quantity", "displayUnit"]
 BUILTIN = ("Real", "Integer", "String", "Boolean")
@@ -564,7 +564,7 @@ def judge_all(lib, res):
             # the wrongly resolved class is missing (ClassNotFoundError), lacks the modified element
             # (ModificationTargetNotFound), is an alias instead of a model or vice versa (Exception / IndexError)
             return [(KNOWN_SHADOW, why)]
-        if exc == "IndexError" and fl["pre_alias"]:
+        if exc in ("IndexError", "Exception") and fl["pre_alias"]:
             return [(KNOWN_PRE, why)]
         return [("valid-library-rejected", why)]
     out = {}
@@ -1043,6 +1043,36 @@ def correspondence(ctx, label, libs, results, name):
     return mism
 
 
+def spec_comparison(ctx, label, libs, results, judge_fn, name):
+    """second comparison: the real flat model vs the Coq SPECIFICATION Lib/Inst.v `inst` (ordered variables,
+    multiset of equations) on the libraries outside the recorded defect shapes: the implementation
+    flattened them, the Python reference accepts them and finds no difference.  Returns (eligible, bad)."""
+    elig = []
+    for i, (lib, r) in enumerate(zip(libs, results)):
+        if "symbols" not in r:
+            continue
+        try:
+            reference(lib)
+        except Reject:
+            continue
+        if judge_fn(lib, r):
+            continue
+        elig.append(i)
+    enc, idx = [], []
+    for i in elig:
+        try:
+            enc.append(encode_case(libs[i], results[i]))
+            idx.append(i)
+        except Unencodable:
+            pass
+    bad = core.coq_eval_cases(ctx, label, PREAMBLE, CASE_TYPE, enc, "check_spec", shard=60)
+    mism = idx if bad is None else [idx[j] for j in bad]
+    ctx.oblige(name, not mism, "inst differs from the real flat model on cases %s (of %d eligible)" % (mism[:10], len(idx)))
+    if mism:
+        ctx.notes["spec_mismatch_example"] = slim(libs[mism[0]])
+    return len(idx), mism
+
+
 def known_still_fails(ctx, module, judge_fn):
     def f(entry):
         lib = entry.get("replay", {}).get("case")
@@ -1112,6 +1142,10 @@ def run(ctx):
         core.violation(ctx, "correspondence-broken",
                        {"correspondence": "Model/C07_flatten.v check_case vs pymoca.tree.flatten",
                         "case": slim(libs[i]), "observed": results[i]}, no_input=True)
+    t0 = time.time()
+    n_spec, _ = spec_comparison(ctx, "spec", libs, results, judge_all, "spec:Lib/Inst.v-inst-vs-tree.flatten")
+    timing["coq_spec_s"] = round(time.time() - t0, 1)
+    ctx.notes["spec_comparison_cases"] = n_spec
     core.replay_known(ctx, known_still_fails(ctx, "c07", judge_all))
     ctx.notes["timing"] = timing
     ctx.cov["evaluations"] = len(libs)
@@ -1140,6 +1174,9 @@ ASSUMPTIONS = [
     "as a second pass over already built instance classes; class-targeted modifications are not modelled",
     "conventions of the flat form applied on both sides of the oracle: a declaration value of a non-parameter is an "
     "equation (add_state_value_equations), an unconnected flow variable gets `= 0` (C09's rule)",
+    "the Coq specification Lib/Inst.v `inst` is compared with the real flat model (ordered variables, multiset of "
+    "equations) only on libraries outside the recorded defect shapes (implementation succeeded, Python reference "
+    "accepts and finds no difference); on the others the model-vs-code comparison alone ties the theorems",
     "the oracle compares variables as a name-indexed set and equations as a multiset of trees; the correspondence "
     "compares ordered lists; the text renderer, the child-side serialiser and the name splitting at '.' are trusted",
 ]
